@@ -63,7 +63,7 @@ def r2(fx):
                  got=f'{p}={ast.unparse(got)}' if got is not None else 'not passed', want=f'{p}={p}')
     yield ob('as_svg_data_uri forwards **kw (colours, draw_transparent)', star == 'kw' and uri.args.kwarg is not None, call, got=star, want='**kw')
     yield ob('as_svg_data_uri writes (matrix, matrix_size) to its own buffer', ast.unparse(bound.get('matrix')) == 'matrix'
-             and ast.unparse(bound.get('matrix_size')) == 'matrix_size' and ast.unparse(bound.get('out')) == 'buff', call,
+             and ast.unparse(bound.get('matrix_size')) == 'matrix_size' and nf.same_inlined(uri, bound.get('out'), 'io.BytesIO()'), call,
              got=[ast.unparse(bound.get(k)) for k in ('matrix', 'matrix_size', 'out') if bound.get(k) is not None], want=['matrix', 'matrix_size', 'buff'])
     ud, sd = src.param_defaults(uri), src.param_defaults(svg)
     documented = {'xmldecl': 'False', 'nl': 'False'}
@@ -86,7 +86,8 @@ def r2(fx):
     # png data uri
     pu = fx.fn('writers', 'as_png_data_uri')
     c = single([c for c in src.calls_in(pu, 'write_png')], 'write_png call in as_png_data_uri')
-    b = pat.match(c, 'write_png(matrix, matrix_size, buff, scale=scale, border=border, compresslevel=compresslevel, **kw)')
+    b = pat.match(c, 'write_png(matrix, matrix_size, H_b, scale=scale, border=border, compresslevel=compresslevel, **kw)')
+    b = b if b is not None and nf.same_inlined(pu, b['b'], 'io.BytesIO()') else None
     yield ob('as_png_data_uri forwards scale, border, compresslevel and **kw', b is not None, c, got=ast.unparse(c), want='write_png(matrix, matrix_size, buff, scale=scale, border=border, compresslevel=compresslevel, **kw)')
     pd, wd = src.param_defaults(pu), src.param_defaults(fx.fn('writers', 'write_png'))
     for p in ('scale', 'border', 'compresslevel'):
@@ -110,7 +111,7 @@ def r2(fx):
     calls = [c for c in src.calls_in(q, 'save')]
     c = single(calls, 'self.save in svg_inline')
     yield ob('svg_inline = save(kind=svg, xmldecl=False, svgns=False, nl=False, **kw)',
-             pat.match(c, "self.save(buff, kind='svg', xmldecl=False, svgns=False, nl=False, **kw)") is not None, c, got=ast.unparse(c),
+             pat.match(c, "self.save(H_b, kind='svg', xmldecl=False, svgns=False, nl=False, **kw)") is not None, c, got=ast.unparse(c),
              want="self.save(buff, kind='svg', xmldecl=False, svgns=False, nl=False, **kw)")
     q = fx.fn('__init__', 'QRCode.terminal')
     tc = [ast.unparse(c) for c in src.calls_in(q) if (src.call_name(c) or '').startswith('writers.write_terminal')]
@@ -285,9 +286,9 @@ def r4(fx):
     wk = _writer_kw(fx)
     allkw = set().union(*[set(d) for d in wk.values()])
     mc = fx.fn('cli', 'make_code')
-    popped = {c.args[0].value for c in src.calls_in(mc, 'pop') if src.call_name(c) == 'config.pop' and c.args and isinstance(c.args[0], ast.Constant)}
+    popped = {c.args[0].value for c in src.calls_in(mc, 'pop') if c.args and isinstance(c.args[0], ast.Constant)}
     mainf = fx.fn('cli', 'main')
-    popped_main = {c.args[0].value for c in src.calls_in(mainf, 'pop') if src.call_name(c) == 'config.pop' and c.args and isinstance(c.args[0], ast.Constant)}
+    popped_main = {c.args[0].value for c in src.calls_in(mainf, 'pop') if c.args and isinstance(c.args[0], ast.Constant)}
     rewrites = {'svgencoding': 'encoding', 'no_classes': 'svgclass'}
     for dest in sorted(defaults):
         ok = dest in popped or dest in popped_main or dest in allkw or rewrites.get(dest) in allkw or dest == 'compact'
@@ -305,7 +306,7 @@ def r4(fx):
     b = [s for s in mc.body if isinstance(s, ast.Assign) and ast.unparse(s.targets[0]) == 'kw']
     kwa = single(b, 'kw = dict(...) in make_code')
     want_kw = "dict(mode=config.pop('mode'), error=config.pop('error'), version=config.pop('version'), mask=config.pop('pattern'), encoding=config.pop('encoding'), boost_error=config.pop('boost_error'))"
-    yield ob('make_code maps the options to the factory keywords', nf.norm(kwa.value) == nf.norm(ast.parse(want_kw, mode='eval').body), kwa,
+    yield ob('make_code maps the options to the factory keywords', nf.same(kwa.value, want_kw), kwa,
              got=ast.unparse(kwa.value), want=want_kw)
     r = single([s for s in mc.body if isinstance(s, ast.Return)], 'return of make_code')
     yield ob('make_code encodes the joined content with those keywords', pat.match(r.value, "make(' '.join(config.pop('content')), **kw)") is not None, r,
@@ -354,7 +355,7 @@ def r5(fx):
              want='for n, qrcode in enumerate(self, start=1): qrcode.save(filename(out, n), kind=kind, **kw)')
     cond = [s for s in fn.body if isinstance(s, ast.If)]
     c = single(cond, 'condition in QRCodeSequence.save')
-    yield ob('numbering only for more than one symbol and a file name with a dot', nf.norm(c.test) == nf.norm(ast.parse('m > 1 and isinstance(out, str)', mode='eval').body)
+    yield ob('numbering only for more than one symbol and a file name with a dot', nf.same(c.test, 'm > 1 and isinstance(out, str)')
              and any(pat.match(s, "dot_idx = out.rfind('.')", mode='stmt') is not None for s in c.body), c, got=ast.unparse(c.test),
              want="m > 1 and isinstance(out, str); dot_idx = out.rfind('.')")
 
